@@ -13,6 +13,9 @@ def payloadOf (j : Json) : Except String Payload := do
   match ← (← j.getObjVal? "kind").getStr? with
   | "none" => pure .none
   | "nonmap" => pure (.nonMapping (← (← j.getObjVal? "truthy").getBool?))
+  | "parse" => pure (.parseError (← (← j.getObjVal? "exc").getStr?))
+  | "toolnottable" => pure .toolNotTable
+  | "unreadable" => pure (.unreadable (← (← j.getObjVal? "what").getStr?))
   | "map" =>
     let kvs ← (← (← j.getObjVal? "kvs").getArr?).toList.mapM fun p => do
       match p with
@@ -36,14 +39,23 @@ def envOf (j : Json) : Except String Env := do
   let platform ← match ← (← j.getObjVal? "platform").getStr? with
     | "posix" => pure Platform.posix
     | "macos" => pure Platform.macos
+    | "windows" => pure Platform.windows
     | p => throw s!"platform {p} is not modelled"
-  pure { vars := vars, home := home, platform := platform }
+  let androidDir ← match j.getObjVal? "androidDir" with
+    | .error _ => pure none
+    | .ok .null => pure none
+    | .ok (.str d) => pure (some d)
+    | .ok _ => throw "androidDir must be a string or null"
+  pure { vars := vars, home := home, platform := platform, androidDir := androidDir }
 
 def errJ : CfgErr → Json
   | e@(.notFound p) => Json.mkObj [("name", Json.str e.name), ("kind", "notFound"), ("path", Json.str p)]
   | e@(.notMapping p) => Json.mkObj [("name", Json.str e.name), ("kind", "notMapping"), ("path", Json.str p)]
   | e@(.unknownProps ks) => Json.mkObj [("name", Json.str e.name), ("kind", "unknownProps"), ("keys", strsJ ks)]
-  | e@(.dictUpdate d) => Json.mkObj [("name", Json.str e.name), ("kind", "dictUpdate"), ("prop", Json.str d)]
+  | e@(.dictUpdate d _) => Json.mkObj [("name", Json.str e.name), ("kind", "dictUpdate"), ("prop", Json.str d)]
+  | e@(.parse p _) => Json.mkObj [("name", Json.str e.name), ("kind", "parse"), ("path", Json.str p)]
+  | e@(.toolNotTable) => Json.mkObj [("name", Json.str e.name), ("kind", "toolNotTable")]
+  | e@(.androidDir) => Json.mkObj [("name", Json.str e.name), ("kind", "androidDir")]
 
 def dictJ (d : Dict) : Json := Json.arr (d.map fun (k, v) => Json.arr #[k.toJson, v.toJson]).toArray
 
@@ -64,8 +76,12 @@ def checkEnv (e : Env) : Except String Unit := do
   unless pathClean e.home do throw "out of domain: home is not a clean path"
   let xh := e.getD "XDG_CONFIG_HOME" ""
   unless isBlank xh || pathClean xh do throw "out of domain: XDG_CONFIG_HOME is not a clean path"
-  for d in splitChar ':' (e.getD "XDG_CONFIG_DIRS" "") do
+  for d in splitChar (pathSep e.platform) (e.getD "XDG_CONFIG_DIRS" "") do
     unless isBlank d || pathClean d do throw s!"out of domain: XDG_CONFIG_DIRS entry {d} is not a clean path"
+  unless pathClean (commonBase e) do throw "out of domain: ALLUSERSPROFILE is not a clean path"
+  match e.androidDir with
+  | some d => unless pathClean d do throw "out of domain: androidDir is not a clean path"
+  | none => pure ()
   match e.globalPath? with
   | some g => unless pathClean g do throw "out of domain: PYPYR_CONFIG_GLOBAL is not a clean path"
   | none => pure ()
@@ -82,6 +98,7 @@ def checkDomain (e : Env) (fs : Files) : Except String Unit := do
   unless decide (fs.map (·.1)).Nodup do throw "duplicate path in files"
   for (p, pl) in fs do
     unless payloadInDomain pl do throw s!"out of domain: payload of {p}"
+    if pl == .toolNotTable && p != "pyproject.toml" then throw s!"out of domain: toolNotTable for the yaml file {p}"
 
 /-- ops: `init` {env, files} → outcome of `Config(); init()`, the look-up order and the
     `handle_path` calls actually made; `apply` {env, path, payload, prefix?} → outcome of one
@@ -94,9 +111,12 @@ def handle (op : String) (j : Json) : Except String Json := do
     checkDomain e fs
     let o := initSt e fs
     let looks := initOrder e
+    -- the other iteration order of `keys & dict_props` (another $PYTHONHASHSEED)
+    let oAlt := initOnOrd true (defaults e) e fs
     pure (Json.mkObj [
       ("state", stateJ o.1),
       ("err", match o.2 with | some err => errJ err | none => Json.null),
+      ("alt", outcomeJ oAlt),
       ("order", Json.arr (looks.map fun l => Json.arr #[Json.str l.path,
           Json.str (match l.loader with | .yaml => "yaml" | .pyproject => "pyproject"),
           Json.bool l.mustExist]).toArray),
@@ -135,7 +155,8 @@ def handle (op : String) (j : Json) : Except String Json := do
     let pl ← payloadOf (← j.getObjVal? "payload")
     unless payloadInDomain pl do throw "out of domain: payload"
     let pre := match j.getObjVal? "prefix" with | .ok (.bool true) => true | _ => false
-    pure (outcomeJ (if pre then applyFileStPreFix (defaults e) path pl else applyFileSt (defaults e) path pl))
+    let rev := match j.getObjVal? "rev" with | .ok (.bool true) => true | _ => false
+    pure (outcomeJ (if pre then applyFileStPreFix (defaults e) path pl else applyFileStOrd rev (defaults e) path pl))
   | _ => .error s!"unknown op {op}"
 
 end Pypyr.OpConfig
